@@ -3,13 +3,20 @@
 package main
 
 import (
+	"context"
 	"encoding/json"
 	"fmt"
+	"go/types"
 	"math/rand"
 	"strings"
 
+	"github.com/rs/zerolog"
+	"github.com/vektra/mockery/v3/config"
 	"github.com/vektra/mockery/v3/template"
 )
+
+// replacement types the loader can resolve anywhere: standard-library packages (two of them share a name)
+var c15Replacements = [][3]string{{"time", "time", "Duration"}, {"io", "io", "Reader"}, {"template", "text/template", "Template"}, {"template", "html/template", "Template"}, {"url", "net/url", "URL"}}
 
 // C15: allocator histories against template.Registry / template.MethodScope.
 
@@ -62,6 +69,10 @@ func genC15(r *rand.Rand, n int) c15Input {
 		}
 		return s
 	}
+	replBudget := 0
+	if r.Intn(8) == 0 {
+		replBudget = 2 // the loader is slow: a few histories, a few replaced variables each
+	}
 	for i := 0; i < n; i++ {
 		switch k := r.Intn(12); {
 		case k < 3:
@@ -77,6 +88,14 @@ func genC15(r *rand.Rand, n int) c15Input {
 			in.Ops = append(in.Ops, []any{"alloc", r.Intn(scopes), name()})
 		case k == 9:
 			in.Ops = append(in.Ops, []any{"suggest", r.Intn(scopes), name()})
+		case k == 10 && r.Intn(2) == 0:
+			// a variable of a named type: AddVar registers the import and makes qualifier and type string visible
+			in.Ops = append(in.Ops, []any{"addvar", r.Intn(scopes), varNameOf(name()), pick(r, pkgNames), pick(r, pathPool), pick(r, []string{"T", "Client", "http"}), false})
+		case k == 10 && replBudget > 0 && r.Intn(3) == 0:
+			// a variable whose type is replaced (replace-type): only the replacement's package is imported
+			replBudget--
+			rp := c15Replacements[r.Intn(len(c15Replacements))]
+			in.Ops = append(in.Ops, []any{"addvar", r.Intn(scopes), varNameOf(name()), rp[0], rp[1], rp[2], true})
 		case k == 10:
 			in.Ops = append(in.Ops, []any{"add", r.Intn(scopes), name()})
 		default:
@@ -179,6 +198,59 @@ func (c15) Run(c *Ctx, raw json.RawMessage) Case {
 					bad("pkgq-differs", "PkgQualifier(%q)=%q, AddImport gave %q", str(op[1]), q, qualOfPath[str(op[1])])
 				}
 			}
+		case "addvar":
+			k := idx(op[1])
+			if k >= len(scopes) {
+				outs = append(outs, "<noscope>")
+				break
+			}
+			sc, t := scopes[k], tracks[k]
+			vname, pname, ppath, tname := str(op[2]), str(op[3]), str(op[4]), str(op[5])
+			replaced, _ := op[6].(bool)
+			ctx := zerolog.Nop().WithContext(context.Background())
+			var vr *types.Var
+			var repl *config.ReplaceType
+			if replaced {
+				vr = types.NewVar(0, nil, vname, types.Typ[types.Int])
+				repl = &config.ReplaceType{PkgPath: ppath, TypeName: tname}
+				tags["addvar-replaced"] = true
+			} else {
+				vr = types.NewVar(0, nil, vname, types.NewNamed(types.NewTypeName(0, types.NewPackage(ppath, pname), tname, nil), types.Typ[types.Int], nil))
+				tags["addvar"] = true
+			}
+			v, err := sc.AddVar(ctx, vr, "", repl)
+			if err != nil {
+				outs = append(outs, "<err>")
+				bad("addvar-failed", "AddVar(%s %s.%s, replaced=%v): %v", vname, ppath, tname, replaced, err)
+				break
+			}
+			outs = append(outs, v.Name+"|"+v.TypeString())
+			if t.seen[v.Name] {
+				bad("suggest-collision", "AddVar named the variable %q, which was already visible", v.Name)
+			}
+			self := in.InPkg && ppath == in.Dst
+			q, qerr := reg.Imports().PkgQualifier(ppath)
+			switch {
+			case self:
+			case qerr != nil:
+				bad("import-missing", "AddVar of a %s.%s variable did not register the import", ppath, tname)
+			default:
+				if !sc.NameExists(q) {
+					bad("import-not-visible", "AddVar imported %q as %q but that qualifier is not a visible name of the scope: a later name may capture it", ppath, q)
+				}
+				t.seen[q] = true
+				if prev, ok := qualOfPath[ppath]; ok {
+					if prev != q {
+						bad("qualifier-changed", "path %q: qualifier %q then %q", ppath, prev, q)
+					}
+				} else {
+					if other, ok := pathOfQual[q]; ok && other != ppath {
+						bad("qualifier-shared", "qualifier %q for %q and %q", q, other, ppath)
+					}
+					qualOfPath[ppath] = q
+					pathOfQual[q] = ppath
+				}
+			}
 		case "newscope":
 			scopes = append(scopes, reg.MethodScope())
 			t := &scopeTrack{seen: map[string]bool{}, notYet: map[string]bool{}}
@@ -241,4 +313,12 @@ func (c15) Run(c *Ctx, raw json.RawMessage) Case {
 		tl = append(tl, k)
 	}
 	return Case{Impl: outs, Oracle: or, Nontrivial: tags["alias"] || tags["suffix"], Tags: tl}
+}
+
+// a declared variable has a name other than the blank identifier (unnamed ones get a name derived from their type)
+func varNameOf(n string) string {
+	if n == "" || n == "_" {
+		return "arg"
+	}
+	return n
 }
